@@ -758,9 +758,13 @@ impl DirectAddrUpdateState {
     fn schedule_run(&mut self, why: UpdateReason, if_state: IfStateDetails) {
         match self.net_reporter.clone().try_lock_owned() {
             Ok(net_reporter) => {
+                #[cfg(iroh_verif)]
+                iroh_base::verif::event("direct_addr.schedule_run", || format!("idle {why:?}"));
                 self.run(why, if_state, net_reporter);
             }
             Err(_) => {
+                #[cfg(iroh_verif)]
+                iroh_base::verif::event("direct_addr.schedule_run", || format!("busy {why:?}"));
                 let _ = self.want_update.insert(why);
             }
         }
@@ -770,11 +774,19 @@ impl DirectAddrUpdateState {
     fn try_run(&mut self, if_state: IfStateDetails) {
         match self.net_reporter.clone().try_lock_owned() {
             Ok(net_reporter) => {
+                #[cfg(iroh_verif)]
+                iroh_base::verif::event("direct_addr.try_run", || {
+                    format!("idle want={:?}", self.want_update)
+                });
                 if let Some(why) = self.want_update.take() {
                     self.run(why, if_state, net_reporter);
                 }
             }
             Err(_) => {
+                #[cfg(iroh_verif)]
+                iroh_base::verif::event("direct_addr.try_run", || {
+                    format!("busy want={:?}", self.want_update)
+                });
                 // do nothing
             }
         }
@@ -813,8 +825,15 @@ impl DirectAddrUpdateState {
         // Ensure that reports are cancelled when we shutdown
         let token = self.shutdown_token.child_token();
         let inner_token = token.child_token();
+        #[cfg(iroh_verif)]
+        iroh_base::verif::event("direct_addr.run.start", || format!("{why:?}"));
         task::spawn(
             async move {
+                // Dropped at the end of this task's last poll, just before the captured report guard.
+                #[cfg(iroh_verif)]
+                let _verif_task_end = crate::verif::c25::TaskEnd;
+                #[cfg(iroh_verif)]
+                iroh_base::verif::pause_async("direct_addr.run.before_report").await;
                 let fut = token.run_until_cancelled(time::timeout(
                     NET_REPORT_TIMEOUT,
                     net_reporter.get_report(if_state, why.is_major(), inner_token),
@@ -832,9 +851,17 @@ impl DirectAddrUpdateState {
                     }
                 }
 
+                #[cfg(iroh_verif)]
+                iroh_base::verif::event("direct_addr.run.report_done", || format!("{why:?}"));
+                #[cfg(iroh_verif)]
+                iroh_base::verif::pause_async("direct_addr.run.before_done").await;
                 // mark run as finished
                 debug!("direct addr update done ({:?})", why);
                 run_done.send(()).await.ok();
+                #[cfg(iroh_verif)]
+                iroh_base::verif::event("direct_addr.run.done_sent", || format!("{why:?}"));
+                #[cfg(iroh_verif)]
+                iroh_base::verif::pause_async("direct_addr.run.after_done").await;
             }
             .instrument(tracing::Span::current()),
         );
@@ -1569,9 +1596,13 @@ impl Actor {
                 reason = self.direct_addr_done_rx.recv() => {
                     match reason {
                         Some(()) => {
+                            #[cfg(iroh_verif)]
+                            iroh_base::verif::pause_async("direct_addr.actor.before_try_run").await;
                             // check if a new run needs to be scheduled
                             let state = self.local_interfaces_watcher.get();
                             self.direct_addr_update_state.try_run(state.into());
+                            #[cfg(iroh_verif)]
+                            iroh_base::verif::event("direct_addr.actor.after_try_run", String::new);
                         }
                         None => {
                             warn!("direct addr watcher died");
